@@ -36,6 +36,44 @@ def chain(env):
     return out
 
 
+def actualcall_routing_rule(prog, run, rid):
+    # ---------------- R11 ---------------------------------------------------
+    # MockSupport::actualCall folded over (previous call pending, enabled, tracing, call ignored): the previous call is
+    # always retired first (its expectations checked once, the pointer cleared), then the routing decides
+    ac = prog.fn("MockSupport::actualCall")
+    run.analysed(ac)
+    for last, en, tr, ig in itertools.product((0, 4000), (0, 1), (0, 1), (0, 1)):
+        log = []
+
+        def h(name, ret):
+            return lambda *a_: (log.append((name, a_[0] if a_ else None)), ret)[1]
+        ev = Evaluator(prog, ac, env={"lastActualFunctionCall_": last, "enabled_": en, "tracing_": tr, ac.params[0]["name"]: ("str", "f")}, calls={
+            "MockSupport::appendScopeToName": lambda *a_: ("str", "f"), "MockCheckedActualCall::checkExpectations": h("check", 0), "MockActualCall::checkExpectations": h("check", 0),
+            "MockSupport::callIsIgnored": h("isIgnored", ig), "MockSupport::createActualCall": h("create", 4100), "MockCheckedActualCall::withName": h("withName", 4100),
+            "MockIgnoredActualCall::instance": h("ignoredInstance", 1), "MockActualCallTrace::instance": h("traceInstance", 2), "MockActualCallTrace::withName": h("traceWithName", 2)})
+        ev.pass_object = True
+        try:
+            ev.run_blocks(ac.entry, max_steps=400)
+        except Unknown as u:
+            run.broke("%s: MockSupport::actualCall cannot be folded: %s" % (rid, u))
+            break
+        kinds = [k for k, o in log]
+        why = []
+        if last:
+            if kinds[:1] != ["check"] or log[0][1] != last or kinds.count("check") != 1:
+                why.append("the pending call is not retired first (its expectations checked once): %s" % kinds)
+            if ev.env.get("lastActualFunctionCall_") != 0 and "create" not in kinds:
+                why.append("the pointer to the retired call is kept (%s): a disabled or ignored call would be answered from it" % ev.env.get("lastActualFunctionCall_"))
+        elif "check" in kinds:
+            why.append("expectations of a call that does not exist are checked")
+        want = "ignoredInstance" if not en else ("traceInstance" if tr else ("ignoredInstance" if ig else "create"))
+        routed = [k for k in kinds if k in ("ignoredInstance", "traceInstance", "create")]
+        if routed != [want]:
+            why.append("routed to %s, expected %s" % (routed, want))
+        run.ob(rid, "actualCall folded [previous call %s, enabled=%d, tracing=%d, ignored=%d]" % ("pending" if last else "none", en, tr, ig), ac.site, not why, witness=kinds, what="; ".join(why))
+
+
+
 def check(ctx, run):
     prog = ctx.program()
     run.assume("expectations are matched through the pruning primitives only (who-may-write on the candidate list is checked); list primitives are folded over every list of up to 3 expectations and every predicate pattern, which covers all states of their uniform per-node transitions")
@@ -48,6 +86,7 @@ def check(ctx, run):
     run.rule("R6", "end-of-test verdict: unfulfilled is reported iff the last call was fulfilled and calls are left, and the out-of-order check runs AFTER it (on the cleared mock); the plugin checks iff the test has not failed and always clears", floor=6)
     run.rule("R7", "tolerance side: hasInputParameter compares with the expectation's stored value as receiver", floor=2)
     run.rule("R8", "return-value getters (SIBLING): return<T>Value reads get<T>Value of the same T; return<T>ValueOrDefault defaults iff !hasReturnValue(); returnValue checks expectations first and reads the matched expectation", floor=24)
+    run.rule("R11", "actualCall routing folded over (previous call pending, enabled, tracing, ignored): the previous call is retired first on every route, then disabled -> ignored call, tracing -> trace, ignored name -> ignored call, else a checked call", floor=16, exhaustive=True)
     run.rule("R10", "no stale per-call marks: an expectation dropped from a call's candidate list is clean before it can be a candidate again (reset where it is dropped, or all candidates reset when a call collects them)", floor=2)
     run.rule("R9", "matching-state reset coverage: every field or per-parameter flag set by the per-call marker methods is reset by resetActualCallMatchingState", floor=3)
 
@@ -306,6 +345,8 @@ def check(ctx, run):
         if me is False and "matchingExpectation_" in r:
             okr = False
     run.ob("R8", "returnValue finishes the call first and reads the matched expectation's value", rv.site, okr)
+
+    actualcall_routing_rule(prog, run, "R11")
 
     # ---------------- R10 ---------------------------------------------------
     # An expectation dropped from the candidate list of a call keeps whatever the marker methods set on it during that
